@@ -144,6 +144,11 @@ type ioOp struct {
 	epochs   map[string]int
 	frames   []*obsFrame
 	replies  []*obsFrame
+	// set when an acknowledged write is judged (for the D20 classifier)
+	acked       bool
+	rwHolders   int // replicas listed RW at that moment that hold it
+	attachedN   int
+	coldStarts0 int // cold-start elections seen so far
 }
 
 func (o *ioOp) ok() bool {
@@ -166,6 +171,7 @@ type adminOp struct {
 	// sampled when the request's handler first took the controller write lock
 	acquired   bool
 	list       []types.Replica
+	lastList   []types.Replica
 	checkpoint string
 	addsBefore int64
 	missed     map[string]bool
@@ -212,6 +218,8 @@ type clRun struct {
 	mutations    int
 	compares     int
 	settled      bool
+	coldStarts   int
+	idleWindow   bool
 }
 
 func (cr *clRun) viol(prop, clause, format string, a ...interface{}) {
@@ -354,8 +362,12 @@ func (cr *clRun) exec(i int, op Op) {
 		}
 		cr.note("wait", fmt.Sprint(ok))
 	case "adv":
+		pre := cr.idleImages(op.A)
+		cr.idleWindow = pre != nil
 		cr.pump(time.Duration(op.A)*time.Millisecond, nil)
+		cr.idleWindow = false
 		cr.note("adv", "ok")
+		cr.checkIdleImages(pre)
 	case "kill":
 		rn := cr.rep(op.A)
 		if rn.up {
@@ -448,6 +460,49 @@ func (cr *clRun) exec(i int, op Op) {
 		cr.armHook(rn, int(op.B), int(op.C))
 		cr.faultsActive = true
 		cr.note("hook", fmt.Sprintf("%s-%d-%d", rn.name, op.B%4, op.C%2))
+	case "agentfault":
+		// the next C sync-agent child processes of kind B on replica A exit non-zero
+		rn := cr.rep(op.A)
+		if rn.agent != nil {
+			kind := []string{"sync", "fold"}[int(op.B)%2]
+			n := int(op.C)
+			if n <= 0 {
+				n = 1
+			}
+			rn.agent.mu.Lock()
+			rn.agent.failNext[kind] += n
+			rn.agent.mu.Unlock()
+			cr.faultsActive = true
+			cr.note("agentfault", rn.name+"-"+kind)
+			cr.res.stat("fault_agent_"+kind, 1)
+		}
+	case "later":
+		// a fault that fires B microseconds from now, i.e. inside whatever the
+		// script does next (management calls are synchronous for the script)
+		rn := cr.rep(op.A)
+		kind := op.S
+		cr.w.After(time.Duration(op.B)*time.Microsecond, fmt.Sprintf("later-%d", i), func() {
+			if cr.stopped() {
+				return
+			}
+			switch kind {
+			case "kill":
+				if rn.up {
+					rn.scripted = true
+					c.killReplica(rn, "script-later")
+					cr.res.stat("fault_kill_inside_operation", 1)
+				}
+			case "resetconn":
+				for _, conn := range cr.w.Conns() {
+					if conn.ServerNode() == rn.node && strings.HasSuffix(conn.RemoteAddr().String(), ":9503") {
+						conn.Reset("script-later")
+						cr.res.stat("fault_conn_reset_inside_operation", 1)
+					}
+				}
+			}
+			cr.faultsActive = true
+		})
+		cr.note("later", rn.name+"-"+kind)
 	case "settle":
 		cr.settle()
 	case "snap", "resize", "delsnap", "revert", "rmrep", "seterr", "addrep", "verify":
@@ -683,10 +738,14 @@ func (cr *clRun) onAcquire(lock interface{}, g *simrt.G, write bool) {
 	o := cr.byG[g.Name]
 	cr.c.mu.Unlock()
 	if o == nil {
-		if a := cr.curAdmin; a != nil && !a.acquired && strings.HasPrefix(g.Name, "http:admin>") {
-			a.acquired = true
-			a.list = append([]types.Replica(nil), cr.c.ctrl.ListReplicas()...)
-			a.checkpoint = cr.c.ctrl.Checkpoint
+		if a := cr.curAdmin; a != nil && strings.HasPrefix(g.Name, "http:admin>") {
+			// (the list under the request's LAST lock hold is the one its effect happens under)
+			a.lastList = append([]types.Replica(nil), cr.c.ctrl.ListReplicas()...)
+			if !a.acquired {
+				a.acquired = true
+				a.list = a.lastList
+				a.checkpoint = cr.c.ctrl.Checkpoint
+			}
 		}
 		return
 	}
@@ -885,7 +944,7 @@ func (cr *clRun) onQuiescent() {
 		return
 	}
 	if wo > 1 {
-		cr.viol("C18", "more-than-one-wo-replica", "%d replicas are WO: %v", wo, list)
+		cr.viol(map[bool]string{true: "C07", false: "C18"}[cr.s.Prop == "C07"], "more-than-one-wo-replica", "%d replicas are WO: %v", wo, list)
 		return
 	}
 	if c.ctrl.RWReplicaCount != rwc {
@@ -909,7 +968,7 @@ func (cr *clRun) onQuiescent() {
 		if cr.pendingPromo != "" {
 			cr.deepChecks("at promotion of "+cr.pendingPromo, cr.pendingPromo)
 			cr.pendingPromo = ""
-		} else if cr.qpoints%40 == 0 {
+		} else if cr.qpoints%40 == 0 && !cr.idleWindow {
 			cr.deepChecks("periodic", "")
 		}
 	}
@@ -1007,6 +1066,12 @@ func (cr *clRun) judgeIO(o *ioOp) {
 			}
 			cr.m.ack(o.idx, o.off, o.n, cr.inflight)
 			cr.mutations++
+			o.acked, o.attachedN, o.coldStarts0 = true, len(attached), cr.coldStarts
+			for _, r := range o.list {
+				if r.Mode == types.RW && applied[r.Address] {
+					o.rwHolders++
+				}
+			}
 			// laggards must be detached by now
 			cur := cr.c.ctrl.ListReplicas()
 			if cr.lockFree() {
@@ -1031,6 +1096,42 @@ func (cr *clRun) judgeIO(o *ioOp) {
 			if anyRW && allAppliedReplied(o, applied, cr) {
 				cr.viol("C05", "minority-failure-surfaced", "write %d failed (%v, n=%d) although %d of %d attached replicas applied and acknowledged it (list %v)", o.idx, o.err, o.ret, na, len(attached), o.list)
 				return
+			}
+		}
+	}
+	if (o.kind == "sync" || o.kind == "unmap") && o.ok() && len(o.frames) > 0 && len(attached) > 0 {
+		// C02 for flush/unmap: success needs a success reply, delivered to the
+		// controller, from a strict majority of the replicas attached when it took
+		// effect (the controller cannot have counted a reply it never received), and
+		// every attached replica that did not answer is detached afterwards.
+		reqSeq := map[string]uint32{}
+		for _, q := range o.frames {
+			reqSeq[q.conn.Key()] = q.f.Seq
+		}
+		okReply := map[string]bool{}
+		for _, r := range o.replies {
+			if seq, ok := reqSeq[r.conn.Key()]; ok && r.f.Type == tResponse && r.f.Seq == seq {
+				okReply[cr.addrOf(r.target)] = true
+			}
+		}
+		na := 0
+		for _, a := range attached {
+			if okReply[a] {
+				na++
+			}
+		}
+		cr.res.stat("flush_judged", 1)
+		if na*2 <= len(attached) {
+			cr.viol("C02", "flush-acknowledged-without-majority", "%s %d acknowledged but only %d of %d attached replicas answered it successfully (attached %v, answered %v)", o.kind, o.idx, na, len(attached), attached, sortedNames(okReply))
+			return
+		}
+		if cr.lockFree() {
+			cur := cr.c.ctrl.ListReplicas()
+			for _, a := range attached {
+				if !okReply[a] && modeOf(cur, a) != "" && modeOf(cur, a) != types.ERR && cr.epoch[a] == o.epochs[a] {
+					cr.viol("C02", "laggard-still-attached", "%s %d acknowledged; %s did not answer it successfully but is still listed as %s", o.kind, o.idx, a, modeOf(cur, a))
+					return
+				}
 			}
 		}
 	}
@@ -1079,6 +1180,10 @@ func (cr *clRun) judgeIO(o *ioOp) {
 						why += fmt.Sprintf(" [block %d was partially written by op %d (off=%d len=%d) while %s was WO]", bad/8, w.idx, w.off, w.n, rn.name)
 						break
 					}
+				}
+				if w := cr.woMajorityLoss(bad); w != nil && !strings.Contains(clause, "/") {
+					clause += "/write-majority-included-rebuilding-replica"
+					why += cr.d20Note(w)
 				}
 				cr.viol("C04", clause, "read %d off=%d len=%d: %s", o.idx, o.off, o.n, why)
 				return
@@ -1140,6 +1245,125 @@ func (cr *clRun) unalignedWriteWhileWO(addr string, s int64) *ioOp {
 		}
 	}
 	return nil
+}
+
+// woMajorityLoss recognises known finding D20: the acknowledged value of sector
+// s comes from a write whose majority needed a rebuilding (WO) replica - at most
+// half of the attached replicas were RW holders - and a cold-start election has
+// happened since. A WO replica's acknowledgement counts for the write quorum,
+// but it does not advance its revision counter and an aborted rebuild discards
+// its data, so at the election nobody may represent that write.
+func (cr *clRun) woMajorityLoss(s int64) *ioOp {
+	if s < 0 || s >= int64(len(cr.m.val)) {
+		return nil
+	}
+	idx := int(cr.m.val[s]>>32) - 1
+	for _, o := range cr.ios {
+		if o.idx == idx && o.acked && o.rwHolders*2 <= o.attachedN && cr.coldStarts > o.coldStarts0 {
+			return o
+		}
+		if o.idx == idx && os.Getenv("VERIF_DEBUG_D20") != "" {
+			fmt.Fprintf(os.Stderr, "D20? op %d kind=%s acked=%v rwHolders=%d attached=%d cold0=%d cold=%d list=%v\n", o.idx, o.kind, o.acked, o.rwHolders, o.attachedN, o.coldStarts0, cr.coldStarts, o.list)
+		}
+	}
+	return nil
+}
+
+func (cr *clRun) d20Note(w *ioOp) string {
+	return fmt.Sprintf(" [write %d was acknowledged with %d RW holder(s) of %d attached replicas, the rest of its majority was rebuilding; a cold start followed]", w.idx, w.rwHolders, w.attachedN)
+}
+
+// idleImages / checkIdleImages (C11, cluster): over a pure advance of time with no
+// initiator or management operation in flight, the only thing that touches a
+// replica's files is background work (the snapshot cleaner's coalesce + remove,
+// hole punching). Neither may change what an RW replica's live image or a
+// retained user-created snapshot reads.
+type idleImage struct {
+	epoch int
+	live  []byte
+	snaps map[string][]byte
+}
+
+func (cr *clRun) idleImages(advMs int64) map[string]*idleImage {
+	if advMs < 2000 || cr.stopped() || cr.c.ctrl == nil || !cr.idleIO() || cr.curAdmin != nil || !cr.lockFree() {
+		return nil
+	}
+	// whatever is already wrong is reported for what it is, before the window opens;
+	// inside the window the periodic deep check stands back so that a change is
+	// attributed to the background work that caused it
+	cr.deepChecks("before an idle period", "")
+	if cr.stopped() {
+		return nil
+	}
+	out := map[string]*idleImage{}
+	for _, r := range cr.c.ctrl.ListReplicas() {
+		if r.Mode != types.RW {
+			continue
+		}
+		for _, rn := range cr.c.reps {
+			if rn.addr != r.Address || !rn.up {
+				continue
+			}
+			img, err := cr.replicaImage(rn)
+			if err != nil {
+				continue
+			}
+			ii := &idleImage{epoch: cr.epoch[rn.addr]*1000 + rn.inc, live: img, snaps: map[string][]byte{}}
+			for _, s := range cr.snaps {
+				if s.deleted || s.lost {
+					continue
+				}
+				if b, _, err := cr.snapshotImage(rn, s.disk); err == nil {
+					ii.snaps[s.name] = b
+				}
+			}
+			out[rn.addr] = ii
+		}
+	}
+	return out
+}
+
+func (cr *clRun) checkIdleImages(pre map[string]*idleImage) {
+	if pre == nil || cr.stopped() || cr.c.ctrl == nil || !cr.lockFree() {
+		return
+	}
+	for _, r := range cr.c.ctrl.ListReplicas() {
+		ii := pre[r.Address]
+		if ii == nil || r.Mode != types.RW {
+			continue
+		}
+		for _, rn := range cr.c.reps {
+			if rn.addr != r.Address || !rn.up || cr.epoch[rn.addr]*1000+rn.inc != ii.epoch {
+				continue
+			}
+			img, err := cr.replicaImage(rn)
+			if err != nil {
+				cr.viol("C11", "background-work-left-replica-unreadable", "replica %s (RW, untouched by any request) cannot be read after an idle period: %v", rn.name, err)
+				return
+			}
+			cr.compares++
+			cr.res.stat("idle_image_checks", 1)
+			if !bytes.Equal(img, ii.live) {
+				cr.viol("C11", "background-deletion-changed-live-data", "replica %s: live image changed over an idle period (no request in flight): %s", rn.name, describeDiff(img, ii.live))
+				return
+			}
+			for _, s := range cr.snaps {
+				old, ok := ii.snaps[s.name]
+				if !ok || s.deleted || s.lost {
+					continue
+				}
+				b, _, err := cr.snapshotImage(rn, s.disk)
+				if err != nil {
+					cr.viol("C11", "background-deletion-lost-user-snapshot", "replica %s: user snapshot %s unreadable after an idle period: %v", rn.name, s.name, err)
+					return
+				}
+				if !bytes.Equal(b, old) {
+					cr.viol("C11", "background-deletion-changed-user-snapshot", "replica %s: user snapshot %s changed over an idle period: %s", rn.name, s.name, describeDiff(b, old))
+					return
+				}
+			}
+		}
+	}
 }
 
 // appliedBy inspects every replica directory: does it hold this write's stamp?
@@ -1268,6 +1492,9 @@ func (cr *clRun) settle() {
 				if w := cr.unalignedWriteWhileWO(rn.addr, bad); w != nil {
 					clause += "/unaligned-write-during-rebuild"
 					why += fmt.Sprintf(" [block %d was partially written by op %d (off=%d len=%d) while %s was WO]", bad/8, w.idx, w.off, w.n, rn.name)
+				} else if w := cr.woMajorityLoss(bad); w != nil {
+					clause += "/write-majority-included-rebuilding-replica"
+					why += cr.d20Note(w)
 				}
 				cr.viol("C02", clause, "replica %s is listed RW but its image disagrees with the acknowledged writes: %s", rn.name, why)
 				return
@@ -1327,6 +1554,9 @@ func (clustersim) Generate(rng *Rand, prop, tier string) *Script {
 		}
 		if prop == "C04" && rng.Bool(40) {
 			k = "r"
+		}
+		if prop == "C02" && rng.Bool(15) {
+			k = "sync" // the flush path has its own majority count
 		}
 		op := Op{K: k}
 		if k == "sync" {
@@ -1508,6 +1738,10 @@ func (clustersim) Generate(rng *Rand, prop, tier string) *Script {
 			for i, k := 0, rng.Range(0, 3); i < k; i++ {
 				genIO()
 			}
+			if rng.Bool(30) {
+				// a replica fails while the management request is being processed
+				add(Op{K: "later", A: int64(rng.Intn(nreps)), B: int64(rng.Range(20, 3000)), S: []string{"kill", "resetconn"}[rng.Intn(2)]})
+			}
 			admin()
 			if rng.Bool(30) {
 				fault()
@@ -1519,7 +1753,10 @@ func (clustersim) Generate(rng *Rand, prop, tier string) *Script {
 				admin()
 			}
 			wait()
-			if s.Cfg["retention"] != 0 && rng.Bool(40) {
+			if s.Cfg["retention"] != 0 && (rng.Bool(40) || (prop == "C11" && rng.Bool(60))) {
+				if rng.Bool(40) || (prop == "C11" && rng.Bool(40)) {
+					add(Op{K: "agentfault", A: int64(rng.Intn(nreps)), B: 1, C: int64(rng.Range(1, 2))}) // sfold fails
+				}
 				add(Op{K: "adv", A: int64(rng.Range(61000, 200000))}) // let the snapshot cleaner tick
 			}
 		case x >= 85: // everybody dies, comes back in some order (cold start)
